@@ -3,6 +3,7 @@ package main
 // Evaluation of spec expressions to SMT terms in a program state.
 
 import (
+	"go/token"
 	"fmt"
 	"go/types"
 	"regexp"
@@ -520,6 +521,16 @@ func (c *FnCtx) loopCount(env *Env) Val {
 			}
 		}
 	}
+	// range over a channel: one receive per iteration, so the number of completed iterations is the number of values
+	// received from that channel since the loop was entered
+	for _, ins := range env.loop.header.Instrs {
+		if u, ok := ins.(*ssa.UnOp); ok && u.Op == token.ARROW && u.CommaOk && env.loop.pre != nil {
+			ch := c.envVal(env, u.X)
+			now := "(select " + c.heapGet(env.st, c.chRecvd()) + " " + ch.E + ")"
+			then := "(select " + c.heapGet(env.loop.pre, c.chRecvd()) + " " + ch.E + ")"
+			return Val{T: tInt, E: "(- " + now + " " + then + ")"}
+		}
+	}
 	panic(specError("loop has no range counter"))
 }
 
@@ -849,6 +860,17 @@ func (c *FnCtx) evalCall(env *Env, x *ECall) Val {
 			panic(specError("unknown type " + tn))
 		}
 		return Val{T: tBool, E: fmt.Sprintf("(= (i-tag %s) %d)", v.E, c.ty.TypeID(t))}
+	case "deref":
+		// deref(p): the value a pointer to a basic (non-struct) type points to, in the state the expression is evaluated in
+		v := arg(0)
+		pt, ok := v.T.Underlying().(*types.Pointer)
+		if !ok {
+			panic(specError("deref: not a pointer"))
+		}
+		if _, isStruct := pt.Elem().Underlying().(*types.Struct); isStruct {
+			panic(specError("deref: use field selection on pointers to structs"))
+		}
+		return Val{T: pt.Elem(), E: "(select " + c.heapGet(env.st, c.cellHeap(pt.Elem())) + " " + v.E + ")"}
 	case "implements":
 		// implements(x, I): the dynamic type of the (non-nil) interface value x implements interface type I
 		v := arg(0)
